@@ -576,6 +576,11 @@ def dealias_new_snapshots(raw, make_function, known=None):
                     continue
                 if pn["k"] == "UnaryOperator" and pn.get("op") in ("&", "++", "--"):
                     bad = True
+                # used as an lvalue (no lvalue-to-rvalue conversion above it): bound to a reference parameter or reference local -
+                # whoever holds the reference assigns to the LOCAL, not to the path it was copied from
+                if pn["k"] in ("CallExpr", "CXXMemberCallExpr", "CXXConstructExpr", "CXXOperatorCallExpr", "DeclStmt") and \
+                   not (pn["k"] != "DeclStmt" and pn.get("c") and f.strip(pn["c"][0]) == u):
+                    bad = True
                 if pn["k"] in ("BinaryOperator", "CompoundAssignOperator") and (pn.get("op") == "=" or pn["k"] == "CompoundAssignOperator") \
                    and f.strip(pn["c"][0]) == u:
                     bad = True
